@@ -195,7 +195,7 @@ def plume_objects(sc, z, y_inner, p=None):
     return yi, yo
 
 
-def const_neighbor(z, y, above=False, span=1.):
+def const_neighbor(z, y, above=False, span=1., below=False):
     """`interp1d` carrying the neighbour's solution, as `inner_main` / `outer_main` build it
     (l.1607, 1753): returns exactly `y` at depth `z`.  With `above=True` the tabulated depths lie
     entirely below `z`, so that `derivs_inner` takes its `z < min(neighbor.x)` branch."""
@@ -203,6 +203,9 @@ def const_neighbor(z, y, above=False, span=1.):
     y = np.asarray(y, dtype=float)
     if above:
         x = np.array([z + span, z + 2. * span])
+    elif below:
+        # tabulated depths entirely above z: `derivs_outer` takes its `z > max(neighbor.x)` branch (no inner plume)
+        x = np.array([z - 2. * span, z - span])
     else:
         # z is the first node: the interpolation weight is exactly 0 and interp1d returns y bit for bit
         # (with z strictly inside the interval scipy's linear formula can be off by one ulp)
